@@ -193,4 +193,46 @@ theorem dev_facts (K h cap L top : Nat) (tbl : List Nat) (htop : top ≤ 0x7F800
         natDiv_le_natDiv _ _ _ _ hL (Nat.mul_pos hDp (by decide))]
       exact a2
 
+/-! ### the pipeline is monotone for the order `key` on ALL non-NaN patterns -/
+
+theorem pipe_zero (K mx : Nat) (hK : K < 0x7F800000) : pipe K half mx 0 = 0 := by
+  unfold pipe
+  have h0 : pval 0 = 0 := by decide +kernel
+  have hh : rpU (pval half) 851 = half := by decide +kernel
+  rw [fmul_pval 0 K (by decide) hK, h0, Nat.zero_mul, rpU_zero, fadd_pval 0 half (by decide) (by decide), h0,
+    Nat.zero_add, hh]
+  exact Dds.EncTotal.QuantBits.toNatSat_small _ _ (Nat.le_refl _)
+
+open Dds.EncTotal.QuantBits in
+/-- `x ↦ (x * K + 0.5) as uN` is monotone for the order of the VALUES (`key`, `−0 = +0`) on all non-NaN patterns:
+negative inputs (and `−0`, `−∞`) give 0, the non-negative half line is `pipe_mono` -/
+theorem pipe_mono_key (K mx a b : Nat) (hK : K < 0x7F800000) (hK0 : 0 < K) (ha : a < 2 ^ 32) (hb : b < 2 ^ 32)
+    (hna : isNaN a = false) (hnb : isNaN b = false) (h : key a ≤ key b) : pipe K half mx a ≤ pipe K half mx b := by
+  have negz : ∀ x, NegR x → pipe K half mx x = 0 := fun x hx => pipe_neg K mx x hK hK0 hx
+  have negk : ∀ x, NegR x → key x ≤ 0 := by
+    intro x hx
+    obtain ⟨_, n2⟩ := negR_flags x hx
+    unfold key; rw [n2]; simp only [if_true]; omega
+  have posk : ∀ x, x ≤ 0x7F800000 → key x = (x : Int) := fun x hx => Dds.EncTotal.SharedExp.key_of_lt x (by
+    simp only [signBit]; omega)
+  have cls : ∀ x, x < 2 ^ 32 → isNaN x = false → x ≤ 0x7F800000 ∨ NegR x := by
+    intro x hx hn
+    rcases classify x hx with h | h | h | ⟨h, _⟩ | h
+    · left; omega
+    · left; omega
+    · rw [hn] at h; exact absurd h (by decide)
+    · right; exact h
+    · right; subst h; exact ⟨by decide, by decide⟩
+  rcases cls a ha hna with ha' | ha'
+  · rcases cls b hb hnb with hb' | hb'
+    · rw [posk a ha', posk b hb'] at h
+      exact pipe_mono hK hK0 (by decide) (by omega) hb'
+    · -- `0 ≤ key a ≤ key b ≤ 0`: `a = +0`
+      have := negk b hb'
+      rw [posk a ha'] at h
+      have ha0 : a = 0 := by omega
+      rw [ha0, pipe_zero K mx hK]
+      exact Nat.zero_le _
+  · rw [negz a ha']; exact Nat.zero_le _
+
 end Dds.F32Thr
